@@ -19,6 +19,7 @@ TEXT = {
  "C13": ("model_checking", "MC_Version: operational version machine of Gfa.tla = declarative verdict of Version.tla for every order of every set of <= D line kinds (TLC invariant Agrees); every order replayed incrementally and through Gfa(list|str)/from_file.", "5 C13"),
  "C14": ("exploration", "LinearPaths.tla (Chains, Spell, Merge with laws checked by TLC); TLC enumerates graphs (<= 3-4 segments, link sets incl. hairpins, self-links, parallel twins, three naming/sequence profiles, GFA1 and GFA2); linear_paths() and the result of merge_linear_paths() (twice) are compared by TLC with the specification for some traversal direction per chain, plus closed/symmetric object graph and preserved components.", "5 C14"),
  "C15": ("exploration", "Multiply.tla relational post-condition (copies, names, edges, counts, distribution, rest); TLC enumerates graphs x segments x factors -1..3 x policies x naming and judges the recorded pre/post observations.", "5 C15"),
+ "C17": ("exploration", "Groups.tla written from the GFA2 text (strict and relaxed reading of captured paths and induced sets, laws checked by TLC); TLC enumerates item sequences, splits over several lines in every arrival order, nesting to depth 3, cyclic nesting, over two base graphs with parallel, reversed, self-loop and hairpin edges; items/tags/captured_path/induced_set of gfapy compared by TLC.", "5 C17"),
  "C18": ("model_checking", "Fields.tla field store with validation level; MC_Fields checks the statements on the spec and enumerates all programs of <= 3-4 steps over Set/Get/Write/Str/Validate/ValidateField x 30 fields x levels 0..3; every program is run against gfapy and judged by TraceFields; level independence on catalogue documents.", "5 C18"),
  "C19": ("model_checking", "Clone/EditInPlace frame conditions of Fields.tla; every catalogue line (connected, unconnected, virtual, all datatypes) cloned, every mutable path found generically edited on either copy, other copy and Gfa must be unchanged (TraceFields).", "5 C19"),
  "C20": ("exploration", "value classes with symbolic integers (subtype boundaries), default datatypes and representability in Fields.tla; written characters judged by the grammar in TLC; read-back equality observed by the harness.", "5 C20"),
@@ -27,7 +28,7 @@ TEXT = {
 
 
 # properties whose checks are finished and reviewed; everything else is listed as not yet claimed
-RELEASED = ["C01", "C02", "C03", "C04", "C05", "C06", "C07", "C08", "C09", "C10", "C11", "C12", "C13", "C14", "C15", "C16", "C18", "C19", "C20"]
+RELEASED = ["C01", "C02", "C03", "C04", "C05", "C06", "C07", "C08", "C09", "C10", "C11", "C12", "C13", "C14", "C15", "C16", "C17", "C18", "C19", "C20"]
 
 
 def main():
